@@ -68,9 +68,17 @@ def sibling_class(n):
     return 'several' if len(sibs) > 1 else 'single'
 
 
+DEFAULT_NS = dict(NS_POOL, **{'': NS_POOL['d']})     # a parser with a default element namespace
+
+
 def evaluate_path(path, root_node, ver, nsarg):
+    """ver '3.1d': an XPath 3.1 parser configured with a default element namespace; the generated paths spell
+    every name as Q{uri}local, so the configuration must not change what they select"""
     def run():
-        tok = PARSERS[ver](namespaces=NS_POOL).parse(path)
+        if ver.endswith('d'):
+            tok = PARSERS[ver[:-1]](namespaces=DEFAULT_NS).parse(path)
+        else:
+            tok = PARSERS[ver](namespaces=NS_POOL).parse(path)
         ctx = XPathContext(root=root_node, namespaces=nsarg, item=root_node)
         return list(tok.select(ctx))
     return call(run)
@@ -126,9 +134,11 @@ def check_case(kind, case):
                 if other is not None and other is not n:
                     out.fail('C14/%s/duplicate-path/%s' % (k, sc), '%r and %r both have path %s' % (other, n, path))
                 seen_paths[path] = n
-            for ver in ('3.0', '3.1'):
+            for ver in ('3.0', '3.1', '3.1d'):
                 got = evaluate_path(path, root_node, ver, nsarg)
                 out.dim('paths_evaluated', src.split('/')[0])
+                if ver.endswith('d'):
+                    out.dim('paths_evaluated_with_default_namespace', k)
                 if got[0] != 'ok':
                     if k == 'pi' and nc == 'pi-target=function-or-keyword-name' and got[0] == 'err':
                         key = 'C14/pi/unparsable/pi-target=function-or-keyword-name'
